@@ -42,6 +42,7 @@ type Step struct {
 	Secs  int    `json:"secs,omitempty"`  // sleep
 	BlkOff int   `json:"blk_off,omitempty"` // logs: the logs are (re)delivered on a check block this much higher
 	OnlyNew bool `json:"only_new,omitempty"` // events: only for reports that had no event yet
+	FirstOnly bool `json:"first_only,omitempty"` // events: only for the EARLIEST report of each unit of work (the log of an older report arrives late)
 	Late  bool   `json:"late,omitempty"`  // round: reports withheld from nodes earlier (Skip) reach them after this round's observations were built
 	// cond: Logs = numbers of the conditional upkeeps that are active AND eligible on Nodes from now on (replaces the previous set)
 	// expect: liveness obligation - each unit of work in Logs (Kind cond | log) is agreed by one of the next Conf rounds.  The
@@ -193,6 +194,7 @@ func runScenario(t *testing.T, sc *Scenario) {
 	// cleared on any transmit event batch and when the lockout window may have passed
 	acceptedBy := map[string]map[int]bool{}
 	acceptedAt := map[string]time.Time{}
+	acceptedBlk := map[string]uint64{} // highest check block of the unit of work in a report every recorded node accepted
 	var prev []byte
 	var seq uint64
 	var lastHonestObs [][]byte
@@ -263,7 +265,18 @@ func runScenario(t *testing.T, sc *Scenario) {
 					acceptedBy[r.WorkID] = map[int]bool{}
 					acceptedAt[r.WorkID] = time.Now()
 				}
-				acceptedBy[r.WorkID][i] = true
+				switch b := uint64(r.Trigger.BlockNumber); {
+				case b > acceptedBlk[r.WorkID]:
+					// a report on a higher check block supersedes: the nodes now await that one
+					acceptedBlk[r.WorkID] = b
+					acceptedBy[r.WorkID] = map[int]bool{i: true}
+					acceptedAt[r.WorkID] = time.Now()
+				case b == acceptedBlk[r.WorkID]:
+					acceptedBy[r.WorkID][i] = true
+				default:
+					// this node awaits an older report (it was restarted): it is not waiting for the newest one
+					delete(acceptedBy[r.WorkID], i)
+				}
 			}
 		}
 	}
@@ -370,9 +383,26 @@ func runScenario(t *testing.T, sc *Scenario) {
 			synctest.Wait()
 		case "events":
 			blk++
+			firstOf := map[string]int{}
+			for pi, pr := range reports {
+				for _, r := range pr.res {
+					if _, ok := firstOf[r.WorkID]; !ok {
+						firstOf[r.WorkID] = pi
+					}
+				}
+			}
 			for pi, pr := range reports {
 				if st.OnlyNew && evented[pi] {
 					continue
+				}
+				if st.FirstOnly {
+					first := false
+					for _, r := range pr.res {
+						first = first || firstOf[r.WorkID] == pi
+					}
+					if !first {
+						continue
+					}
 				}
 				evented[pi] = true
 				if st.Conf >= 1 {
@@ -392,7 +422,13 @@ func runScenario(t *testing.T, sc *Scenario) {
 			for _, h := range nodes {
 				h.nd.Events.Set(events)
 			}
-			acceptedBy = map[string]map[int]bool{}
+			// an event releases the unit of work only if it is for the awaited check block or a higher one; the log
+			// of an older, superseded report says nothing about the report the nodes are waiting for
+			for _, ev := range events {
+				if uint64(ev.CheckBlock) >= acceptedBlk[ev.WorkID] {
+					delete(acceptedBy, ev.WorkID)
+				}
+			}
 			time.Sleep(3 * time.Second)
 			synctest.Wait()
 			snapshot()
@@ -515,7 +551,7 @@ func runScenario(t *testing.T, sc *Scenario) {
 				}
 				hasEvent := false
 				for _, ev := range events {
-					hasEvent = hasEvent || ev.WorkID == w
+					hasEvent = hasEvent || (ev.WorkID == w && uint64(ev.CheckBlock) >= acceptedBlk[w])
 				}
 				if all && time.Since(acceptedAt[w]) < 80*time.Second && !hasEvent {
 					rl.inflight = append(rl.inflight, w)
